@@ -25,6 +25,7 @@ pub enum ErrClass {
     Auth,
     Dangling,
     EmptyProof,
+    ComposeInsufficient,
     Other,
 }
 
@@ -49,6 +50,8 @@ pub fn classify_error(e: &RuntimeError) -> (ErrClass, String) {
         ErrClass::Auth
     } else if has("DropNonEmptyBucket") || has("OrphanedNodes") {
         ErrClass::Dangling
+    } else if has("InsufficientBaseProofs") {
+        ErrClass::ComposeInsufficient
     } else if has("EmptyProofNotAllowed") {
         ErrClass::EmptyProof
     } else {
@@ -282,6 +285,8 @@ pub fn run_case(shard: &mut Shard, w: &mut World, case: &Case, ctx: &CaseCtx) ->
             let d = detail(ctx, w, case, obs_json(json!({"model_failing_instruction": at})));
             if class.c09_verdict() {
                 shard.violation_for("C09", format!("succeeded-although:{:?}", class), d);
+            } else if *class == FailClass::CompositionExceedsBase {
+                shard.violation_for("C10", "composition:succeeded-although-exceeds-max-per-container", d);
             } else if class.c10_verdict() {
                 shard.violation_for("C10", format!("succeeded-although:{:?}", class), d);
             } else {
@@ -301,6 +306,9 @@ pub fn run_case(shard: &mut Shard, w: &mut World, case: &Case, ctx: &CaseCtx) ->
                 shard.count("c10:lock_or_divisibility_failures_confirmed");
                 if *class == FailClass::Locked {
                     shard.count("c10:locked_refusals_confirmed");
+                }
+                if *class == FailClass::CompositionExceedsBase {
+                    shard.count("c10:compositions_beyond_max_refused");
                 }
             }
             // assertion exactness: an assertion error where the model's first failure is something else
@@ -322,6 +330,9 @@ pub fn run_case(shard: &mut Shard, w: &mut World, case: &Case, ctx: &CaseCtx) ->
             }
             if model.notes.contains("take-exactly-withdrawable-under-lock") {
                 shard.count("c10:exactly_withdrawable_taken_under_lock");
+            }
+            if model.notes.contains("composition-within-max-per-container") {
+                shard.count("c10:compositions_within_max_succeeded");
             }
             if model.notes.contains("all-proofs-of-a-container-dropped") {
                 shard.count("c10:containers_fully_unlocked_then_used");
@@ -345,6 +356,7 @@ pub fn run_case(shard: &mut Shard, w: &mut World, case: &Case, ctx: &CaseCtx) ->
             match ec {
                 ErrClass::Assertion => shard.violation_for("C09", "assertion-failed-though-satisfied-in-model", d),
                 ErrClass::BucketNotFound | ErrClass::ProofNotFound => shard.violation_for("C09", format!("live-id-reported-missing:{:?}", ec), d),
+                ErrClass::ComposeInsufficient => shard.violation_for("C10", "composition:refused-although-within-max-per-container", d),
                 ErrClass::Insufficient | ErrClass::Locked | ErrClass::InvalidAmount => {
                     if proofs_involved {
                         shard.violation_for("C10", format!("withdrawable-amount-refused:{:?}", ec), d)
